@@ -194,3 +194,11 @@ Proof.
 Qed.
 
 End ConvThm.
+
+(* the hypotheses are consistent (smallest instance: the 1-point transform over Z); the intended instance is
+   R = C, tw m = exp(-2 pi i m / D), invD = 1 / D, whose orthogonality is the geometric sum of the roots of unity *)
+Example conv_hypotheses_satisfiable :
+  let tw := fun _ : Z => 1 in
+  (forall a b : Z, tw (a + b) = tw a * tw b) /\
+  (forall m : Z, 1 * rsum Z 0 Z.add (fun k : Z => tw (k * m)) 1 = (if m mod 1 =? 0 then 1 else 0)).
+Proof. cbv zeta. split; [reflexivity|]. intros m. rewrite Z.mod_1_r. reflexivity. Qed.
